@@ -471,6 +471,12 @@ func (b *Branch) try(ctx context.Context, bs Bindings, against interface{}, prop
 			return nil, ts, err
 		}
 	} else {
+		if bs == nil {
+			// No bindings are empty bindings, as they are for
+			// a branch with a pattern (Match starts from a
+			// copy, and the copy of nil is empty).
+			bs = NewBindings()
+		}
 		bss = []Bindings{bs}
 	}
 
